@@ -502,6 +502,7 @@ Proof.
   - unfold decode_size. destruct (Nat.leb 7 (leading_ones (b2n b))); [discriminate|].
     destruct (Nat.ltb (length rest) (pred (leading_ones (b2n b)))); [discriminate|].
     destruct (_ <=? _); [discriminate|].
+    destruct (N.ltb _ _); [discriminate|].
     destruct (Nat.ltb _ _); [discriminate|].
     intros Q; inversion Q; subst. rewrite !skipn_length. lia.
 Qed.
